@@ -13,6 +13,8 @@ READER_ONLY = {}
 
 
 def run(ctx):
+    from ..persist import rule_P12k
+    rule_P12k(ctx)      # ordered members are never rebuilt from the (alphabetical) group names
     prog = ctx.program
     classes = persist_classes(prog)
     ctx.require(len(classes) >= 8, 'only %d persistable classes found (floor 8)' % len(classes))
@@ -35,6 +37,11 @@ def run(ctx):
     k13 = rule_P13(ctx)
     from ..effects import rule_G2
     rule_G2(ctx)      # every restored network / member is its own object
+    from ..persist import rule_P2s
+    k2s = rule_P2s(ctx)
+    ctx.require(k2s >= 30, 'P2s saw only %d written values (floor 30)' % k2s)
+    from ..effects import rule_G4
+    rule_G4(ctx)      # compute() and read() build ordered member lists in the same order
     from ..memo import rule_K2
     rule_K2(ctx, classes={'Union', 'NautilusBound', 'Ellipsoid', 'UnitCubeEllipsoidMixture',
                           'NeuralBound', 'UnitCube', 'NeuralNetworkEmulator', 'PhaseShift'})
